@@ -429,7 +429,12 @@ def biv_ppf_containers_replay(fam, th):
                 got = np.asarray(_biv_new(fam, th).percent_point(a, b), dtype=float)
             except Exception as ex:
                 return f'{fam} theta={th}: percent_point(y, V) with {name} arguments raises {type(ex).__name__}: {str(ex)[:80]} (ndarray arguments work)'
-            tol = 1e-5 if name == 'float32' else 1e-12
+            tol = 1e-12
+            if name == 'float32':       # the reference: the same (rounded) numbers held in float64 (round 7: roots stored back in the input dtype)
+                ref = np.asarray(_biv_new(fam, th).percent_point(a.astype(float), b.astype(float)), dtype=float)
+                # Clayton's closed form is evaluated in the precision of its arguments (single precision in, single precision out); the
+                # Brent families solve every lane in double precision whatever the storage of y and V
+                tol = 1e-5 if fam == 'clayton' else 1e-10
             if got.shape != ref.shape or not np.allclose(got, ref, rtol=0, atol=tol):
                 k = int(np.argmax(np.abs(got - ref))) if got.shape == ref.shape else 0
                 return (f'{fam} theta={th}: percent_point(y, V) with {name} arguments returns {got.tolist()[:4]}..., with ndarray arguments '
